@@ -88,9 +88,21 @@ func main() {
 			}
 		}
 		r := NewRng(*seed)
+		// A change that makes sources stall costs seconds per affected case (watchdogs, retries under a longer watchdog).
+		// Once two minutes have gone into cases slower than a second, generation stops: the cases run so far are judged
+		// as usual (fewer cases, none of them shortened). On the unchanged tree no quick check comes near this budget.
+		var slow time.Duration
 		for i := 0; i < *n; i++ {
 			in := p.Gen(r.Fork(), i, *tier)
+			t0 := time.Now()
 			run(mustJSON(in), "")
+			if d := time.Since(t0); d > time.Second {
+				slow += d
+			}
+			if slow > 2*time.Minute && *tier == "quick" {
+				fmt.Fprintf(os.Stderr, "harness %s: generation stopped after %d of %d cases: %s spent in cases slower than a second\n", id, i+1, *n, slow.Round(time.Second))
+				break
+			}
 		}
 	}
 	if err := w.close(); err != nil {
